@@ -47,6 +47,7 @@ pub enum Op {
 }
 
 const VALUE: usize = 42;
+const ENV_DESC: [&str; 3] = ["undisturbed", "another thread installs its own handler right before the library re-raises the signal", "another termination signal is blocked and pending with its default disposition"];
 const THREADS_DESC: [&str; 3] = ["single-threaded process", "a second thread is alive; deliveries on the main thread", "deliveries on a second thread; the main thread is alive"];
 
 /// `threads`: 0 = single-threaded; 1 = a second thread is alive while the main thread gets the signals;
@@ -126,7 +127,19 @@ fn child_body(order_shutdown_first: bool, sig: i32, status: i32, hist: &[Op], mo
 /// `register_conditional_default` on a signal whose default is to terminate: dies in the first delivery
 /// with the condition true - by that signal, or by the documented abort fall-back when `race` arms the
 /// environment deviation "another thread installs a handler of its own right before the re-raise".
-fn child_default(sig: i32, hist: &[Op], race: bool, e: &mut Emit) {
+fn child_default(sig: i32, hist: &[Op], env: u8, e: &mut Emit) {
+    let race = env == 1;
+    if env == 2 {
+        // another termination signal is blocked and pending (default disposition) all along
+        let other = if sig == libc::SIGINT { libc::SIGTERM } else { libc::SIGINT };
+        unsafe {
+            let mut set: libc::sigset_t = std::mem::zeroed();
+            libc::sigemptyset(&mut set);
+            libc::sigaddset(&mut set, other);
+            libc::sigprocmask(libc::SIG_BLOCK, &set, std::ptr::null_mut());
+            libc::syscall(libc::SYS_tgkill, libc::getpid(), libc::syscall(libc::SYS_gettid) as libc::pid_t, other);
+        }
+    }
     PIPE_FD.store(e.fd(), Ordering::SeqCst);
     unsafe {
         libc::atexit(at_exit_hook);
@@ -235,11 +248,11 @@ pub fn run(tier: Tier) -> BResult {
         }
     }
     // conditional default: histories of length <= 3 x termination signals x {no race, racing handler installation}
-    let mut dcells: Vec<(i32, Vec<Op>, bool)> = Vec::new();
+    let mut dcells: Vec<(i32, Vec<Op>, u8)> = Vec::new();
     for &sig in term.iter() {
         for h in all.iter().filter(|h| h.len() <= 3 && h.contains(&Op::Deliver) && !h.contains(&Op::Other)) {
-            for race in [false, true] {
-                dcells.push((sig, h.clone(), race));
+            for env in [0u8, 1, 2] {
+                dcells.push((sig, h.clone(), env));
             }
         }
     }
@@ -251,8 +264,8 @@ pub fn run(tier: Tier) -> BResult {
             let (o, s, st, h, mv, th) = &cells2[i];
             child(*o, *s, *st, h, *mv, *th, e);
         } else {
-            let (s, h, race) = &dcells2[i - nmain];
-            child_default(*s, h, *race, e);
+            let (s, h, env) = &dcells2[i - nmain];
+            child_default(*s, h, *env, e);
         }
     });
     let mut violations = Vec::new();
@@ -261,7 +274,8 @@ pub fn run(tier: Tier) -> BResult {
     let mut distinct = std::collections::HashSet::new();
     let mut transitions = 0u64;
     for (i, p) in probes.iter().enumerate().skip(nmain) {
-        let (sig, h, race) = &dcells[i - nmain];
+        let (sig, h, env) = &dcells[i - nmain];
+        let race = &(*env == 1);
         transitions += h.len() as u64;
         // fatal delivery: the first one with the condition true
         let mut b = false;
@@ -277,8 +291,8 @@ pub fn run(tier: Tier) -> BResult {
                 _ => {}
             }
         }
-        let case = json!({"entry": "register_conditional_default", "signal": sig, "history": h.iter().map(|o| format!("{:?}", o)).collect::<Vec<_>>(), "environment": if *race { "another thread installs its own handler right before the library re-raises the signal" } else { "undisturbed" }, "model_fatal_delivery": fatal});
-        *classes.entry(format!("conditional-default:{}:{}", if *race { "raced" } else { "plain" }, if fatal.is_some() { "dies" } else { "survives" })).or_insert(0) += 1;
+        let case = json!({"entry": "register_conditional_default", "signal": sig, "history": h.iter().map(|o| format!("{:?}", o)).collect::<Vec<_>>(), "environment": ENV_DESC[*env as usize], "model_fatal_delivery": fatal});
+        *classes.entry(format!("conditional-default:{}:{}", ["plain", "raced", "other-pending"][*env as usize], if fatal.is_some() { "dies" } else { "survives" })).or_insert(0) += 1;
         distinct.insert((*race, fatal, p.fate.describe(), 100 + h.len()));
         let mut bad: Option<String> = None;
         match fatal {
@@ -301,7 +315,7 @@ pub fn run(tier: Tier) -> BResult {
             }
         }
         if let Some(m) = bad {
-            violations.push(BViolation { message: format!("C15: register_conditional_default / signal {} / history {:?}{}: {}", sig, h, if *race { " / a handler installed by another thread right before the re-raise" } else { "" }, m), case });
+            violations.push(BViolation { message: format!("C15: register_conditional_default / signal {} / history {:?}{}: {}", sig, h, ["", " / a handler installed by another thread right before the re-raise", " / another termination signal blocked and pending"][*env as usize], m), case });
         }
     }
     for (i, p) in probes.iter().enumerate().take(nmain) {
@@ -356,7 +370,7 @@ pub fn run(tier: Tier) -> BResult {
         violations,
         exhaustive: true,
         caps: vec![],
-        rule: format!("every history of length 1..{} over {{deliver, app stores true, app stores false, app stores another value}} containing a delivery x both registration orders x termination signals (full depth for all, all lengths for the first) x how the condition is shared (a clone; or, with the first signal, the only strong handle moved into the registration while the application arms through a weak one) + exit statuses {:?}.. on canonical histories; reference model = one boolean; the canonical histories again in processes with a second live thread (deliveries on the main thread / on the other one); plus register_conditional_default: every history of length <= 3 over (deliver, arm, disarm) x termination signals x (undisturbed / another thread installs a handler right before the library re-raises, injected at the interposed raise) - terminated in exactly the first armed delivery; distinct = distinct (order, fatal delivery index, child fate, length)", depth, &statuses[..statuses.len().min(4)]),
+        rule: format!("every history of length 1..{} over {{deliver, app stores true, app stores false, app stores another value}} containing a delivery x both registration orders x termination signals (full depth for all, all lengths for the first) x how the condition is shared (a clone; or, with the first signal, the only strong handle moved into the registration while the application arms through a weak one) + exit statuses {:?}.. on canonical histories; reference model = one boolean; the canonical histories again in processes with a second live thread (deliveries on the main thread / on the other one); plus register_conditional_default: every history of length <= 3 over (deliver, arm, disarm) x termination signals x (undisturbed / another thread installs a handler right before the library re-raises, injected at the interposed raise / another termination signal blocked and pending) - terminated in exactly the first armed delivery; distinct = distinct (order, fatal delivery index, child fate, length)", depth, &statuses[..statuses.len().min(4)]),
         assumptions: vec!["exit-time hooks observed through libc::atexit".into()],
     }
 }
